@@ -191,7 +191,7 @@ func (u *Universe) zeroOf(t types.Type, s Sort) Term {
 	}
 	if at, ok := t.Underlying().(*types.Array); ok {
 		es := u.sortOf(at.Elem(), false)
-		return Term{fmt.Sprintf("((as const %s) %s)", s, u.zeroOf(at.Elem(), es).S), s}
+		return u.constArray(SInt, es, u.zeroOf(at.Elem(), es))
 	}
 	if st, ok := t.Underlying().(*types.Struct); ok {
 		d := u.structDT(t)
